@@ -10,7 +10,19 @@ import (
 	"fmt"
 	"sync"
 	"sync/atomic"
+	"unsafe"
 )
+
+// verifOverlap: the backing arrays of a and b (up to their capacities) share
+// at least one byte.
+func verifOverlap(a, b []byte) bool {
+	a, b = a[:cap(a)], b[:cap(b)]
+	if len(a) == 0 || len(b) == 0 {
+		return false
+	}
+	pa, pb := uintptr(unsafe.Pointer(&a[0])), uintptr(unsafe.Pointer(&b[0]))
+	return pa < pb+uintptr(len(b)) && pb < pa+uintptr(len(a))
+}
 
 const verifPoison = 0xDD
 
@@ -94,6 +106,11 @@ func verifNew(m *Message, sz int) *Message {
 	}
 	if len(m.Body) != 0 || len(m.Header) != 0 {
 		l.report("C17/new-message-not-empty", fmt.Sprintf("NewMessage(%d) returned len(Body)=%d len(Header)=%d", sz, len(m.Body), len(m.Header)))
+	}
+	if verifOverlap(m.Header, m.Body) {
+		// "a new message ... starts empty with enough capacity": capacity that
+		// header and body share is capacity neither of them has
+		l.report("C17/new-message-header-shares-storage-with-body", fmt.Sprintf("NewMessage(%d) returned a message whose header space (cap %d) and body space (cap %d) overlap: appending to one writes into the other", sz, cap(m.Header), cap(m.Body)))
 	}
 	if cap(m.Body) < sz {
 		l.report("C17/new-message-capacity", fmt.Sprintf("NewMessage(%d) returned cap(Body)=%d", sz, cap(m.Body)))
